@@ -3,12 +3,12 @@ CONSTANTS
   ClearCountsRows = TRUE
   PlainNewline = TRUE
   W = 4
-  Lens <- LensQuick
-  Pairs <- PairsQuick
+  Lens <- LensSmall
+  Pairs <- PairsSmall
   MaxN = 2
   MaxSections = 3
   Depth = 7
-  Modes <- AnsiOnly
+  Modes <- MCModes
   Pres <- OnePre
 VIEW HView
 INVARIANT ScreenMatches
@@ -17,3 +17,4 @@ INVARIANT NoControl
 INVARIANT Coherent
 INVARIANT CursorBelow
 INVARIANT TermOK
+INVARIANT Emit
